@@ -76,6 +76,24 @@ def gen_case(rng, tier):
     if rng.random() < 0.04:
         return gen.case_from(g, directed_union_window(rng, g))
     if rng.random() < 0.03:
+        # directed: stacked calculations (the second reads the first), a projection that hides the
+        # first but keeps the second, a deduplication, a further projection: rows that differ only in
+        # a hidden (calculated or original) column must survive as duplicates of the last projection
+        cols = sorted(rng.sample("abc", 2))
+        st = g.leaf("sql", want_cols=cols, allow_special=False)
+        cl = sorted(st[1])
+        src = rng.choice(cl)
+        st = (["calc", st[0], "e", rng.choice([["neg", ["ref", src]], ["mul", ["ref", src], ["ref", src]], ["add", ["ref", src], ["lit", 1]]]), None], st[1] | {"e"}, "sql")
+        st = (["calc", st[0], "f", rng.choice([["neg", ["ref", "e"]], ["mul", ["ref", "e"], ["lit", 0]], ["sub", ["ref", "e"], ["ref", src]]]), None], st[1] | {"f"}, "sql")
+        keep = sorted({c for c in cl if c != src or rng.random() < 0.3} | {"f"} | ({"e"} if rng.random() < 0.2 else set()))
+        st = (["proj", st[0], keep, None], frozenset(keep), "sql")
+        st = (["dedup", st[0], None], st[1], "sql")
+        keep2 = sorted(c for c in keep if c != "f" or rng.random() < 0.3) or keep[:1]
+        st = (["proj", st[0], keep2, None], frozenset(keep2), "sql")
+        if rng.random() < 0.3:
+            st = g.unary(st, rng.choice(["dedup", "sel", "sort"])) or st
+        return gen.case_from(g, st)
+    if rng.random() < 0.03:
         # directed: sort on an expression over two columns -> projection dropping one of them ->
         # deduplication -> a further projection (the sort can then not be lifted into an outer query)
         cols = sorted(rng.sample("abcd", 3))
